@@ -50,8 +50,18 @@ def worker_table(prog):
            and U(s.test.left) == taskvar]
     if not top:
         raise AnalysisError("anchor vanished: task branches in tempering_process")
-    first = min(top, key=lambda s: s.lineno)
-    for task, body in branches(first):
+    # an elif chain, or separate `if task == ..` statements one after the other: the arms are exclusive either way as long as the
+    # dispatch variable is bound once per message
+    n_bind = sum(1 for n in ast.walk(tp) if isinstance(n, ast.Name) and n.id == taskvar and isinstance(n.ctx, ast.Store))
+    if n_bind != 1:
+        raise AnalysisError(f"the task dispatch variable `{taskvar}` is bound {n_bind} times in tempering_process")
+    seen_nodes, handlers = set(), []
+    for s_ in sorted(top, key=lambda s: s.lineno):
+        for task, body in branches(s_):
+            if id(body) not in seen_nodes:
+                seen_nodes.add(id(body))
+                handlers.append((task, body))
+    for task, body in handlers:
         keys, sends, calls = set(), [], []
         for st in body:
             for n in ast.walk(st):
